@@ -20,6 +20,34 @@ class MachineryError(Exception):
     pass
 
 
+_w2c2_copy = None
+_w2c2_lock = None
+
+
+def w2c2_binary():
+    """translator built from vcommon.REPO's working tree, copied into this run's scratch (the shared build cache
+    drops builds of other tree states, and several checks may run at once with different W2C2_REPO)"""
+    global _w2c2_copy, _w2c2_lock
+    import shutil, threading, vcommon
+    if _w2c2_lock is None:
+        _w2c2_lock = threading.Lock()
+    with _w2c2_lock:
+        if _w2c2_copy is None:
+            last = None
+            for attempt in range(4):
+                try:
+                    exe = vcommon.build_w2c2('plain')
+                    dst = os.path.join(vcommon.scratch('w2c2bin'), 'w2c2')
+                    shutil.copy2(exe, dst)
+                    _w2c2_copy = dst
+                    break
+                except (RuntimeError, OSError) as e:
+                    last = e
+            if _w2c2_copy is None:
+                raise MachineryError('cannot build the translator: %s' % last)
+    return _w2c2_copy
+
+
 def sched_obj(outdir):
     o = os.path.join(outdir, 'sched.o')
     if not os.path.exists(o):
@@ -89,3 +117,244 @@ def replay(exe, words, sched, spurious=0, horizon=5000, timeout=300):
                 o['cmd'] = ' '.join(cmd)
                 return o
     raise MachineryError('replay failed rc=%d: %s\n%s' % (r.returncode, ' '.join(cmd), r.stderr.decode(errors='replace')[-2000:]))
+
+
+# ---------------------------------------------------------------- matrix runner shared by C16/C17/C18
+import re, time, threading
+from vcommon import pmap
+
+_FRAME = re.compile(r'^\s+#(\d+) (?:0x[0-9a-f]+ in )?(\S+) (\S+?)(?::\d+)?(?::\d+)? \(')
+_FRAME2 = re.compile(r'^\s+#(\d+) (?:0x[0-9a-f]+ in )?(\S+) (\S+)')
+
+
+def parse_frames(lines):
+    out = []
+    for ln in lines:
+        m = _FRAME.match(ln) or _FRAME2.match(ln)
+        if m:
+            f = m.group(3)
+            f = re.sub(r'(:\d+)+$', '', f)
+            out.append((m.group(2), f))
+    return out
+
+
+def classify_report(stderr, origin_dirs):
+    """-> (key, in_origin, text).  Key names the report class by the first frames of the code under test."""
+    def in_origin(f):
+        return any(f.startswith(d.rstrip('/') + '/') for d in origin_dirs)
+
+    def label(frames):
+        for k, (fn, f) in enumerate(frames):
+            if in_origin(f):
+                if re.match(r'^f\d+$', fn):
+                    for fn2, _ in frames[k + 1:]:
+                        m = re.match(r'^m_(\w+)$', fn2)
+                        if m:
+                            return 'wasm:' + m.group(1)
+                return fn
+        return None
+    lines = stderr.splitlines()
+    if 'ThreadSanitizer' in stderr:
+        stacks, curst = [], None
+        for ln in lines:
+            if re.match(r'^\s+(Previous )?(atomic )?(read|write|Read|Write|Atomic read|Atomic write) of size', ln):
+                curst = []
+                stacks.append(curst)
+            elif ln.strip() == '' or re.match(r'^\s+(Location|Thread|Mutex|As if)', ln):
+                curst = None
+            elif curst is not None:
+                curst.append(ln)
+            if len(stacks) >= 2 and curst is None:
+                break
+        labs = [label(parse_frames(s)) for s in stacks[:2]]
+        kind = 'race'
+        m = re.search(r'WARNING: ThreadSanitizer: ([^(\n]+)', stderr)
+        if m and 'data race' not in m.group(1):
+            kind = m.group(1).strip().replace(' ', '-')
+        ok = any(l is not None for l in labs)
+        return '%s|%s' % (kind, '+'.join(sorted(l or 'harness' for l in labs))), ok, stderr
+    if 'AddressSanitizer' in stderr:
+        m = re.search(r'ERROR: AddressSanitizer: (\S+)', stderr)
+        kind = m.group(1) if m else 'error'
+        frames = []
+        for ln in lines:
+            if re.match(r'^\s+#\d+ ', ln):
+                frames.append(ln)
+            elif frames:
+                break
+        lab = label(parse_frames(frames))
+        return 'asan|%s|%s' % (kind, lab or 'harness'), lab is not None, stderr
+    m = re.search(r'^(\S+?):(\d+):\d+: runtime error: (.*)$', stderr, re.M)
+    if m:
+        return 'ubsan|%s:%s' % (os.path.basename(m.group(1)), m.group(2)), in_origin(m.group(1)), stderr
+    return 'sanitizer|unclassified', True, stderr
+
+
+class Matrix:
+    """Runs (case x flavour) explorations in parallel, applies the oracle to every distinct outcome, collects
+    failures per key with the smallest example, replays before reporting, fills the evidence counters."""
+
+    def __init__(self, chk, origin_dirs, allowed_status=('ok',)):
+        self.chk = chk
+        self.origin_dirs = list(origin_dirs)
+        self.allowed_status = set(allowed_status)
+        self.fail = {}          # key -> dict(example=..., cases=set, schedules=int)
+        self.per_bound = {}     # p -> schedules (new at that level), plain flavour and all flavours
+        self.stats = {'schedules': 0, 'transitions': 0, 'states': 0, 'maxsteps': 0, 'cases': 0, 'nontrivial_cases': 0,
+                      'schedules_by_flavour': {}, 'bounds_completed': None, 'exhaustive': True, 'dev_hist': [0, 0, 0, 0]}
+        self.lock = threading.Lock()
+        self.san_cache = {}
+        self.machinery = None
+        self.samples = []
+        self.outcome_hist = {}
+
+    def add_failure(self, key, job, outcome, msg):
+        with self.lock:
+            f = self.fail.setdefault(key, {'example': None, 'cases': set(), 'schedules': 0})
+            f['cases'].add(json.dumps(job['case'], sort_keys=True))
+            f['schedules'] += outcome.get('count', 1)
+            size = (len(job['words']), sum(len(w) for w in job['words']), len(outcome['sched']), outcome['sched'])
+            if f['example'] is None or size < f['example']['size']:
+                f['example'] = {'size': size, 'job': job, 'outcome': outcome, 'msg': msg}
+
+    def _classify_san(self, job, outcome):
+        """replay the representative schedule with symbolized reports"""
+        sig = (job['exe'], outcome['err'])
+        with self.lock:
+            if sig in self.san_cache:
+                return self.san_cache[sig]
+        r = replay(job['exe'], job['words'], outcome['sched'], spurious=job.get('spurious', 0), horizon=job.get('horizon', 5000))
+        if not r['san']:
+            raise MachineryError('sanitizer report did not reproduce when replaying %s sched=%s' % (r['cmd'], outcome['sched']))
+        key, ok, text = classify_report(r['stderr'], self.origin_dirs)
+        if not ok:
+            raise MachineryError('sanitizer report without a frame in the code under test (harness problem):\n%s\n%s' % (r['cmd'], text[:3000]))
+        with self.lock:
+            self.san_cache[sig] = (key, text)
+        return key, text
+
+    def run(self, jobs, oracle, deadline_at=None, workers=None):
+        """jobs: dicts with case, words, exe, flavour, pb, db, spurious, [horizon], [weight].  oracle(job, outcome) -> [(key,msg)]"""
+        jobs = sorted(jobs, key=lambda j: -j.get('weight', 1))
+
+        def one(job):
+            if self.machinery:
+                return None
+            remaining = 0
+            if deadline_at is not None:
+                remaining = deadline_at - time.time()
+                if remaining <= 1:
+                    return 'skipped'
+            try:
+                res = explore(job['exe'], job['words'], pb=job['pb'], db=job.get('db', 0), spurious=job.get('spurious', 0), jobs=job.get('jobs', 1),
+                              deadline=max(remaining, 0), horizon=job.get('horizon', 5000))
+                for o in res['outcomes']:
+                    fails = []
+                    if o['status'] == 'machinery':
+                        raise MachineryError(o['err'])
+                    if o['san']:
+                        key, text = self._classify_san(job, o)
+                        fails.append((key, 'sanitizer report on schedule %s: %s' % (o['sched'], _short_report(text))))
+                    elif o['status'] not in self.allowed_status:
+                        k = 'terminal|' + o['status']
+                        m = re.search(r"Assertion `([^']+)' failed", o.get('stderr', ''))
+                        if m:
+                            k += '|assert ' + m.group(1)
+                        if o['status'] == 'fail':
+                            k += '|' + re.sub(r'\d+', 'N', o['err'])[:80]
+                        fails.append((k, 'execution ended with status %s %s %s' % (o['status'], o['err'], o.get('stderr', '')[-300:])))
+                    if o['status'] in ('ok', 'blocked'):      # the execution reached a terminal state: the semantic oracle applies
+                        fails += list(oracle(job, o) or [])
+                    for key, msg in fails:
+                        self.add_failure(key, job, o, msg)
+                return res
+            except MachineryError as e:
+                self.machinery = str(e)
+                return None
+        results = pmap(one, jobs, workers or NCPU)
+        if self.machinery:
+            raise MachineryError(self.machinery)
+        st = self.stats
+        for job, res in zip(jobs, results):
+            if res == 'skipped' or res is None:
+                st['exhaustive'] = False
+                st['bounds_completed'] = -1 if st['bounds_completed'] is None else min(st['bounds_completed'], -1)
+                continue
+            d = res['done']
+            st['schedules'] += d['execs']
+            st['transitions'] += d['transitions']
+            st['maxsteps'] = max(st['maxsteps'], d['maxsteps'])
+            st['schedules_by_flavour'][job['flavour']] = st['schedules_by_flavour'].get(job['flavour'], 0) + d['execs']
+            for k in range(4):
+                st['dev_hist'][k] += d['dev_hist'][k]
+            bc = d['bounds_completed']
+            st['bounds_completed'] = bc if st['bounds_completed'] is None else min(st['bounds_completed'], bc)
+            if not d['exhaustive']:
+                st['exhaustive'] = False
+            for l in res['levels']:
+                if l['complete']:
+                    self.per_bound[l['p']] = self.per_bound.get(l['p'], 0) + l['schedules']
+            if job['flavour'] == job.get('count_flavour', 'plain'):
+                st['cases'] += 1
+                st['states'] += len(res['outcomes'])
+                if len(res['outcomes']) > 1:
+                    st['nontrivial_cases'] += 1
+                if len(self.samples) < 6 and len(res['outcomes']) > 1:
+                    o = res['outcomes'][-1]
+                    self.samples.append({'case': job['case'], 'flavour': job['flavour'], 'schedule': o['sched'], 'enabled_set_sizes': o['enabled'],
+                                         'observations': o['obs'].strip().split('\n'), 'end_state': o['end'], 'schedules_with_this_outcome': o['count'],
+                                         'distinct_outcomes_of_case': len(res['outcomes'])})
+        return results
+
+    def report(self, replay_argv0, verify):
+        """replay every failure class once (verify(example, replay_result) -> bool says whether the re-run agrees), then
+        register the violations.  Disagreement = machinery error."""
+        for key in sorted(self.fail):
+            f = self.fail[key]
+            ex = f['example']
+            job, o = ex['job'], ex['outcome']
+            r = replay(job['exe'], job['words'], o['sched'], spurious=job.get('spurious', 0), horizon=job.get('horizon', 5000))
+            same = (r['obs'] == o['obs'] and r['end'] == o['end'] and r['status'] == o['status'] and bool(r['san']) == bool(o['san']))
+            if not same or not verify(ex, r, key):
+                raise MachineryError('failing schedule did not reproduce on replay: key=%s case=%s sched=%s\nfirst: %s | %s | %s san=%s\nreplay: %s | %s | %s san=%s' % (
+                    key, job['case'], o['sched'], o['status'], o['obs'], o['end'], o['san'], r['status'], r['obs'], r['end'], r['san']))
+            obj = {'kind': 'schedule', 'key': key, 'case': job['case'], 'words': job['words'], 'flavour': job['flavour'], 'schedule': o['sched'],
+                   'spurious': job.get('spurious', 0), 'horizon': job.get('horizon', 5000), 'enabled_set_sizes': o['enabled'], 'observed': {'status': o['status'], 'observations': o['obs'].strip().split('\n'), 'end_state': o['end']},
+                   'expected': ex['msg'], 'trace': r['trace'].split('\n'), 'sanitizer_report': r['stderr'][:6000] if r['san'] else '',
+                   'cases_failing_with_this_key': len(f['cases']), 'schedules_failing_with_this_key': f['schedules'],
+                   'how_to_replay': 'python3 %s replay <this file>' % replay_argv0}
+            self.chk.violation(key, obj, '%s  [case %s, flavour %s, schedule %s; %d case(s), %d schedule(s) fail this way]' % (
+                ex['msg'][:300], json.dumps(job['case'], sort_keys=True), job['flavour'], o['sched'], len(f['cases']), f['schedules']))
+
+    def fill_coverage(self, rule):
+        st, cov = self.stats, self.chk.cov
+        cov['evaluations'] = cov.get('evaluations', 0) + st['schedules']
+        cov['states'] = cov.get('states', 0) + st['states']
+        cov['transitions'] = cov.get('transitions', 0) + st['transitions']
+        cov['traces_validated_against_impl'] = cov.get('traces_validated_against_impl', 0) + st['schedules']
+        cov['distinct_nontrivial'] = cov.get('distinct_nontrivial', 0) + st['nontrivial_cases']
+        cov['cases'] = cov.get('cases', 0) + st['cases']
+        cov['max_steps_per_execution'] = max(cov.get('max_steps_per_execution', 0), st['maxsteps'])
+        cov['schedules_by_flavour'] = st['schedules_by_flavour']
+        spb, cum = {}, 0
+        for p in sorted(self.per_bound):
+            cum += self.per_bound[p]
+            spb[str(p)] = {'new': self.per_bound[p], 'cumulative': cum}
+        cov['schedules_per_bound'] = spb
+        cov['schedules_by_environment_deviations'] = st['dev_hist']
+        cov['bounds_completed'] = st['bounds_completed']
+        if not st['exhaustive']:
+            cov['exhaustive'] = False
+        cov['rule'] = rule
+        for s in self.samples:
+            self.chk.sample(s)
+
+
+def _short_report(text):
+    keep = []
+    for ln in text.splitlines():
+        if re.match(r'^\s+(Previous |Atomic )?(read|write|Read|Write|READ|WRITE)', ln) or re.match(r'^\s+#[01] ', ln) or 'ERROR: AddressSanitizer' in ln or 'runtime error' in ln:
+            keep.append(ln.strip())
+        if len(keep) >= 6:
+            break
+    return ' / '.join(re.sub(r' \(BuildId: [0-9a-f]+\)', '', k) for k in keep)
